@@ -275,7 +275,11 @@ class C12(core.PropertyCheck):
                     continue
                 p = rng.choice(cands)
                 via = "buffer" if (mode == "buffer" and is_source(p)) else "disk"
-                ops.append({"op": "update", "path": p, "text": self.gen_text(rng, p, ctx), "via": via})
+                text = self.gen_text(rng, p, ctx)
+                if via == "buffer" and isinstance(text, str) and kind != "corr" and rng.random() < 0.25:
+                    # an editor that keeps Windows line ends in its buffer: the same text as the file it will save
+                    text = text.replace("\n", "\r\n")
+                ops.append({"op": "update", "path": p, "text": text, "via": via})
             elif r < 0.68:
                 cands = sorted(p for p in exists if p != "index.txt" and (is_source(p) or mode == "disk"))
                 if not cands:
